@@ -194,11 +194,11 @@ example : (render (progOf [(sampleCtl, none)] 1) ⟨none, false⟩ 100).2.1 = "a
     (Spec.render ⟨[(sampleCtl, none)], 1⟩ ⟨none, false⟩ 100).2 = "a0!1.1.012()3(z)".toList ∧
     (render (progOf [(sampleCtl, none)] 1) ⟨none, false⟩ 100).1 ≠ .timeout := by decide +kernel
 
-/-- the unguarded statement is false of the model (because it is false of mako): an inline def that is both
-    `buffered` and `cached` writes its content at the call instead of returning it -/
+/-- the unguarded statement is false of the model (because it is false of mako): a `return` inside a buffered
+    def loses the content written before it, where the specification (and the documentation) keep it -/
 theorem handled_equals_spec_counterexample :
-    (render (progOf [(quirkTmpl, none)] 99) ⟨none, false⟩ 100).2.1 = "xp".toList ∧
-    (Spec.render ⟨[(quirkTmpl, none)], 99⟩ ⟨none, false⟩ 100).2 = "px".toList := by decide +kernel
+    (render (progOf [(quirkTmpl, none)] 99) ⟨none, false⟩ 100).2.1 = "[]".toList ∧
+    (Spec.render ⟨[(quirkTmpl, none)], 99⟩ ⟨none, false⟩ 100).2 = "[x]".toList := by decide +kernel
 
 /-! ## the context after a render; rendering again -/
 
